@@ -80,6 +80,7 @@ def pandas_schema(spec, parsers=None):
         coerce=spec.get("coerce", False),
         drop_invalid_rows=spec.get("drop_invalid_rows", False),
         dtype=pd_dtype(spec.get("dtype")),
+        checks=[build_check(pa, "float64", c) for c in spec.get("checks") or []],
     )
 
 
